@@ -120,6 +120,34 @@ def make_reference(case: Case, seed: int, n_genes: int, sec_near_start: float = 
     return genome, anno, proteome
 
 
+def make_reference_two_chrom(case: Case, seed: int, sec_near_start: float = 0.0):
+    """two single-gene references merged into one with the genes on DIFFERENT chromosomes
+    (`chrF`, `chrG`) — inter-chromosomal fusions need per-transcript chromosome look-ups"""
+    parts = []
+    k = 0
+    while len(parts) < 2:
+        sub = Case(work_dir('sub'))
+        make_reference(sub, seed + 7919 * k, 1, sec_near_start=sec_near_start)
+        k += 1
+        gtf = open(sub.gtf).read()
+        gid = [ln.split('gene_id ')[1].split(';')[0] for ln in gtf.split('\n') if 'gene_id ' in ln][0]
+        if parts and gid == parts[0][3]:
+            sub.cleanup()
+            continue
+        parts.append((gtf, open(sub.genome).read(), open(sub.proteome).read(), gid))
+        sub.cleanup()
+    (g1, f1, p1, _), (g2, f2, p2, _) = parts
+    g2 = '\n'.join(('chrG' + ln[len('chrF'):]) if ln.startswith('chrF\t') else ln for ln in g2.split('\n'))
+    f2 = f2.replace('>chrF', '>chrG', 1)
+    with open(case.gtf, 'wt') as h:
+        h.write(g1.rstrip('\n') + '\n' + g2.rstrip('\n') + '\n')
+    with open(case.genome, 'wt') as h:
+        h.write(f1.rstrip('\n') + '\n' + f2.rstrip('\n') + '\n')
+    with open(case.proteome, 'wt') as h:
+        h.write(''.join(x.rstrip('\n') + '\n' for x in (p1, p2) if x.strip()))
+    case.meta['two_chrom'] = True
+
+
 def load_reference(case: Case):
     _imports()
     from moPepGen.util.common import load_references
